@@ -2,6 +2,7 @@ import Dtr.Proofs.LexClean
 import Dtr.Proofs.Radix
 import Dtr.Model.Bind
 import Dtr.Proofs.LineInsert
+import Dtr.Proofs.LineErase
 /-!
 # C20 — layout is irrelevant: blank space, comments and literal radix do not change rows
 
@@ -231,5 +232,93 @@ example : (match parseHeaderAll ("A B\n".toList ++ ("0 1\n".toList ++ "1 0\n".to
       | .err _ => false) = true ∧
     ("0 1\n".toList = [] ∨ "0 1\n".toList.getLast? = some '\n') ∧ BlankLine "  # note".toList := by
   refine ⟨by decide +kernel, Or.inr (by decide), ⟨"  ".toList, by decide, Or.inr ⟨" note".toList, by decide, by decide⟩⟩⟩
+
+def Res.mapOk {ε α β : Type} (f : α → β) : Res ε α → Res ε β
+  | .ok a => .ok (f a)
+  | .err e => .err e
+  | .panic m => .panic m
+
+/-- binding copies the statements and looks at nothing else of them -/
+theorem withSignals_stmts (p p' : Parsed) (sigs : List Signal)
+    (h2 : p'.signals = p.signals) (h3 : p'.expIn.map (·.1) = p.expIn.map (·.1))
+    (h4 : p'.reads.map (·.1) = p.reads.map (·.1))
+    (h5 : p'.virt.map (fun v => (v.1, v.2.2)) = p.virt.map (fun v => (v.1, v.2.2))) :
+    withSignals p' sigs = (withSignals p sigs).mapOk (fun tc => { tc with stmts := p'.stmts }) := by
+  have hv1 : p'.virt.map (·.1) = p.virt.map (·.1) := by
+    have := congrArg (List.map Prod.fst) h5
+    simpa [List.map_map, Function.comp_def] using this
+  have hv2 : p'.virt.map (fun (x : String × (Nat × Nat) × Expr) => match x with
+        | (n, _, e) => ({ name := n, bits := 64, typ := .virt e } : Signal)) =
+      p.virt.map (fun (x : String × (Nat × Nat) × Expr) => match x with
+        | (n, _, e) => ({ name := n, bits := 64, typ := .virt e } : Signal)) := by
+    have := congrArg (List.map (fun (x : String × Expr) => ({ name := x.1, bits := 64, typ := .virt x.2 } : Signal))) h5
+    simpa [List.map_map, Function.comp_def] using this
+  unfold withSignals
+  rw [hv1, hv2, h2, h3, h4]
+  cases checkDuplicates (p.virt.map (·.1)) sigs [] with
+  | some e => rfl
+  | none =>
+    simp only
+    cases missingColumns p.signals
+        ((buildIndices p.signals 0 (sigs ++ p.virt.map (fun (x : String × (Nat × Nat) × Expr) => match x with
+          | (n, _, e) => ({ name := n, bits := 64, typ := .virt e } : Signal)))).1 ++
+         (buildIndices p.signals 0 (sigs ++ p.virt.map (fun (x : String × (Nat × Nat) × Expr) => match x with
+          | (n, _, e) => ({ name := n, bits := 64, typ := .virt e } : Signal)))).2) with
+    | cons a as => rfl
+    | nil =>
+      simp only
+      cases badExpectedInput (sigs ++ p.virt.map (fun (x : String × (Nat × Nat) × Expr) => match x with
+          | (n, _, e) => ({ name := n, bits := 64, typ := .virt e } : Signal))) (p.expIn.map (·.1)) with
+      | some n => rfl
+      | none =>
+        simp only
+        cases buildReads (sigs ++ p.virt.map (fun (x : String × (Nat × Nat) × Expr) => match x with
+          | (n, _, e) => ({ name := n, bits := 64, typ := .virt e } : Signal))) (p.reads.map (·.1)) with
+        | err e => rfl
+        | panic m => rfl
+        | ok reads => rfl
+
+/-- parse results with the same `coreE` bind to test cases that are equal up to the `line` fields, or fail alike -/
+theorem C20_bind_up_to_lines (p p' : Parsed) (sigs : List Signal) (h : p'.coreE = p.coreE) :
+    (∃ tc tc', withSignals p sigs = .ok tc ∧ withSignals p' sigs = .ok tc' ∧ tc'.er = tc.er) ∨
+    (∃ e, withSignals p sigs = .err e ∧ withSignals p' sigs = .err e) ∨
+    (∃ m, withSignals p sigs = .panic m ∧ withSignals p' sigs = .panic m) := by
+  simp only [Parsed.coreE, Prod.mk.injEq] at h
+  obtain ⟨h1, h2, h3, h4, h5⟩ := h
+  rw [withSignals_stmts p p' sigs h2 h3 h4 h5]
+  cases hw : withSignals p sigs with
+  | ok tc =>
+    refine Or.inl ⟨tc, _, rfl, rfl, ?_⟩
+    have hs : tc.stmts = p.stmts := by
+      unfold withSignals at hw
+      split at hw
+      · cases hw
+      · simp only at hw
+        split at hw
+        · cases hw
+        · split at hw
+          · cases hw
+          · split at hw
+            · cases hw
+            · cases hw
+            · cases hw; rfl
+    simp only [TestCase.er, hs, h1]
+  | err e => exact Or.inr (Or.inl ⟨e, rfl, rfl⟩)
+  | panic m => exact Or.inr (Or.inr ⟨m, rfl, rfl⟩)
+
+/-- **Rows are unchanged except `line`**: test cases that are equal up to the `line` fields of their
+statements behave alike under every driver — the constructor ends the same way (same call, same error),
+and from then on every `next()` yields the same item (inputs with their `changed` flags, outputs,
+expected values, error) with the same driver calls, up to the `line` of a row; the runs end alike.
+With `C20_blank_line_insert` and `C20_bind_up_to_lines`: inserting blank or comment-only lines changes
+nothing of a run but `line`, and `line` is what `C19_source_line` says for both texts. -/
+theorem C20_run_ignores_lines {δ : Type} (tc tc' : TestCase) (h : tc'.er = tc.er) (drv : Driver δ) (d : δ)
+    (rng : Rng) (fuel : Nat) :
+    (tryNew tc' drv d rng).er = (tryNew tc drv d rng).er ∧
+    ∀ (n : Nat) (s s' : RowIt) (d1 : δ), s'.er = s.er →
+      (runN tc' drv fuel n s' d1).map (fun p => (p.1.er, p.2)) = (runN tc drv fuel n s d1).map (fun p => (p.1.er, p.2)) ∧
+      endN tc' drv fuel n s' d1 = endN tc drv fuel n s d1 := by
+  refine ⟨?_, fun n s s' d1 hs => runN_er tc tc' h drv fuel n s s' d1 hs⟩
+  rw [← tryNew_er, ← tryNew_er, h]
 
 end Dtr
